@@ -104,6 +104,7 @@ type dsMsg struct {
 	POL   int32
 	mis   []msgInfo
 	Byz   bool
+	Forged bool // carries another validator's name under the faulty validator's signature
 	rank  string
 }
 
@@ -112,6 +113,9 @@ func (m *dsMsg) String() string {
 		t := "prevote"
 		if m.Type == tmproto.PrecommitType {
 			t = "precommit"
+		}
+		if m.Forged {
+			t = "FORGED-" + t
 		}
 		return fmt.Sprintf("%s(v%d,r%d,%s)", t, m.From, m.Round, m.Block)
 	}
@@ -331,6 +335,24 @@ func (w *dsWorld) byzVote(idx int, typ tmproto.SignedMsgType, round int32, bid t
 	}
 	v.Signature = pv.Signature
 	return w.internVote(v, true)
+}
+
+// forgedVote is a vote that names validator `victim` but is signed with validator `signer`'s key: well-formed,
+// wrong signature. It must be refused and change nothing.
+func (w *dsWorld) forgedVote(signer, victim int, typ tmproto.SignedMsgType, round int32, bid types.BlockID) int {
+	vpk, _ := w.pvs[victim].GetPubKey()
+	v := &types.Vote{Type: typ, Height: w.Height, Round: round, BlockID: bid, Timestamp: tmtime.Now(),
+		ValidatorAddress: vpk.Address(), ValidatorIndex: int32(victim)}
+	pv := v.ToProto()
+	if err := w.pvs[signer].SignVote(w.ChainID, pv); err != nil {
+		panic(err)
+	}
+	v.Signature = pv.Signature
+	id := w.internVote(v, true)
+	w.mtx.Lock()
+	w.msgs[id].Forged = true
+	w.mtx.Unlock()
+	return id
 }
 
 // byzProposal builds a block with the given txs (and optionally a wrong app hash) proposed by idx.
